@@ -1,0 +1,73 @@
+//go:build verif
+
+// Contracts for package anyutil, read by the verifier in /verif (govc). Comments only.
+// "mode int": Go ints are mathematical integers with explicit wrap-around; strings and byte slices are sequences.
+
+package anyutil
+
+//@ global-nonnil google.golang.org/protobuf/reflect/protoregistry.GlobalTypes
+//@ global-nonnil google.golang.org/protobuf/reflect/protoregistry.GlobalFiles
+
+//@ extern google.golang.org/protobuf/proto.MarshalOptions.Marshal
+//@   pure
+//@   trusted protobuf-go: the encoding of m under these options is a function of (options, m); an error or the bytes
+
+//@ extern google.golang.org/protobuf/reflect/protoregistry.MessageTypeResolver.FindMessageByURL
+//@   pure
+//@   trusted protobuf-go: a successful lookup returns a non-nil message type
+//@   ensures result1 == nil ==> result0 != nil
+
+//@ extern google.golang.org/protobuf/reflect/protodesc.Resolver.FindDescriptorByName
+//@   pure
+//@   trusted protobuf-go: a successful lookup returns a non-nil descriptor (of any kind: message, enum, service, …)
+//@   ensures result1 == nil ==> result0 != nil
+
+//@ extern google.golang.org/protobuf/types/dynamicpb.NewMessageType
+//@   pure
+//@   trusted protobuf-go
+//@   ensures result0 != nil
+
+//@ extern google.golang.org/protobuf/reflect/protoreflect.MessageType.New
+//@   trusted protobuf-go: New returns a fresh non-nil message
+//@   ensures result0 != nil
+
+//@ extern google.golang.org/protobuf/reflect/protoreflect.Message.Interface
+//@   pure
+//@   trusted protobuf-go
+//@   ensures result0 != nil
+
+//@ extern google.golang.org/protobuf/internal/impl.Export.NewError
+//@   trusted protobuf-go: NewError returns a non-nil error
+//@   ensures result0 != nil
+
+//@ extern google.golang.org/protobuf/reflect/protoreflect.ProtoMessage.ProtoReflect
+//@   pure
+//@   trusted protobuf-go: reflection view of a non-nil message interface value is non-nil
+//@   ensures result0 != nil
+
+//@ extern google.golang.org/protobuf/reflect/protoreflect.Message.Descriptor
+//@   pure
+//@   trusted protobuf-go
+//@   ensures result0 != nil
+
+//@ func MarshalFrom
+//@   property C16
+//@   mode int
+//@   requires[dst] dst != nil
+//@   ensures[nil-source-is-an-error] src == nil ==> result != nil
+//@   ensures[failed-pack-leaves-dst-untouched] result != nil ==> dst.TypeUrl == old(dst.TypeUrl) && dst.Value == old(dst.Value)
+//@   ensures[type-url-is-slash-fullname] result == nil ==> dst.TypeUrl == "/" + string(src.ProtoReflect().Descriptor().FullName())
+//@   ensures[value-is-the-encoding] result == nil ==> dst.Value == first(opts.Marshal(src))
+
+//@ func New
+//@   property C16
+//@   mode int
+//@   ensures[message-or-error] result1 == nil ==> result0 != nil
+//@   ensures[error-gives-nil] result1 != nil ==> result0 == nil
+
+//@ func Unpack
+//@   property C16
+//@   mode int
+//@   requires[any] any != nil
+//@   ensures[message-or-error] result1 == nil ==> result0 != nil
+//@   ensures[error-gives-nil] result1 != nil ==> result0 == nil
